@@ -322,6 +322,57 @@ def run(tier, regenerate=True):
         chk.functions[out["entry"]] = info
         chk.samples.extend(out["samples"])
         chk.stubs.update(out["stubs"])
+    # ---- wire part: protobuf bindings of sos-protocol (T -> WireT -> T)
+    if not os.environ.get("VERIF_ONLY") or "wire" in os.environ.get("VERIF_ONLY", ""):
+        from . import c14_wire as W
+        wprog, wdefs, wbinds = W.load(regenerate=regenerate)
+        chk.extra["mir_regeneration_s"].update(wprog.timings)
+        W.set_tier(tier)
+        wjobs, wskipped = W.jobs(wprog, wbinds)
+        chk.bounds["wire"] = {"types": [j[0] for j in wjobs], "not_compiled_in_this_feature_set": wskipped,
+                              "variation_budget": W.BUDGET, "variation_budget_for_messages_with_more_than_%d_decision_points" % W.BIG_MESSAGE: max(1, W.BUDGET - 1),
+                              "repeated_elements_max": W.REPEAT_MAX, "byte_string_max": W.BYTES_MAX, "string_max": W.STR_MAX,
+                              "nested_timestamps": "concrete from depth 2"}
+        wres = par.map_entries(lambda j: W.run_type(wprog, wdefs, *j), wjobs)
+        for out in wres:
+            if isinstance(out, Exception) or out is None:
+                chk.inconclusive.append("worker failed: %r" % (out,))
+                continue
+            chk.states += out["states"]
+            chk.transitions += out["queries"]
+            chk.solver_s += out["solver_s"]
+            chk.obligations += out["obligations"]
+            chk.discharged += out["discharged"]
+            chk.inconclusive.extend(out["inconclusive"])
+            for k, n in out["gaps"].items():
+                kk = "%s @ %s" % (k, out["entry"])
+                chk.gaps[kk] = chk.gaps.get(kk, 0) + n
+            chk.functions[out["entry"]] = dict(out.get("info", {}), variation_budget=out.get("budget"), decision_points=out.get("decision_points"))
+            chk.stubs.update(out["stubs"])
+            # translator validation: the message of one accepted path must be accepted natively too
+            for smp in out["samples"][:1]:
+                nat = rep.run({"op": "wire_roundtrip", "ty": out["entry"].split(":", 1)[1], "bytes": smp["message_full"]})
+                if nat.get("outcome") == "ok" and nat.get("stable"):
+                    chk.replays_ok += 1
+                elif smp.get("assumed_parser") and nat.get("outcome") == "err" and nat.get("stage") == "decode1":
+                    pass        # the text of an external format (url, ...) is only assumed to parse
+                else:
+                    chk.replays_bad += 1
+                    chk.inconclusive.append("%s: a message the engine accepts and round-trips is not stable natively: %s (message %s)" % (
+                        out["entry"], json.dumps(nat)[:300], smp["message_full"][:200]))
+            for key, desc, case in out["reports"]:
+                nat = rep.run(case)
+                # natively: the second decode fails, or decode/encode/decode is not stable, or - for a difference that
+                # Debug does not print (the hashes of a Merkle proof) - re-encoding the decoded value does not give the
+                # canonical input message back
+                confirmed = nat.get("outcome") in ("panic", "abort") or (nat.get("outcome") == "err" and nat.get("stage") != "decode1") \
+                    or (nat.get("outcome") == "ok" and (not nat.get("stable") or nat.get("reencode_equals_input") is False))
+                if confirmed:
+                    chk.replays_ok += 1
+                    chk.report(key, desc + "; native: %s" % json.dumps(nat)[:400], dict(case, native=nat))
+                else:
+                    chk.replays_bad += 1
+                    chk.inconclusive.append("not reproduced natively: %s :: %s" % (desc, json.dumps(nat)[:300]))
     chk.extra["values_round_tripped"] = sum(f.get("values_round_tripped", 0) for f in chk.functions.values())
     chk.assumptions = [
         "values are those whose encoding fits the per-type byte bound; larger values are outside the claim",
@@ -329,8 +380,12 @@ def run(tier, regenerate=True):
         "external text formats (url, urn, age recipients, pem, vcard, serde_json bodies) are opaque: parse and "
         "to_string are assumed inverse on the strings they accept",
         "HashSet/HashMap iteration order is insertion order in the model (sets are compared as sets)",
-        "prost wire conversions are not covered by this check yet",
+        "wire part: prost's byte encoder/decoder are external and assumed inverse; messages in which a field the receiver "
+        "unwrap()s is absent are outside (they end in a panic contained by spawn_blocking: an Err for the caller); the "
+        "message space is the canonical fully populated message plus every combination of at most `variation_budget` "
+        "structural deviations",
     ]
+    rep.close()
     return chk.finish(rule="one state = one path of decode;encode;decode over symbolic bytes; obligations = encode ok, "
                            "decode ok, exact consumption, determinism, v2 == v1 per path")
 
@@ -338,11 +393,11 @@ def run(tier, regenerate=True):
 def replay(path):
     case = json.load(open(path))
     rep = Replayer("dev")
-    nat = rep.run({"op": "roundtrip", "ty": case["ty"], "bytes": case["bytes"]})
+    nat = rep.run({"op": case.get("op", "roundtrip"), "ty": case["ty"], "bytes": case["bytes"]})
     rep.close()
     print(json.dumps(nat))
     bad = nat["outcome"] in ("panic", "abort") or (nat["outcome"] == "err" and nat.get("stage") != "decode1") \
-        or (nat["outcome"] == "ok" and not nat.get("stable"))
+        or (nat["outcome"] == "ok" and (not nat.get("stable") or nat.get("reencode_equals_input") is False))
     if bad:
         print("VIOLATION property=%s replay=%s" % (PROP, path))
         return 1
